@@ -138,6 +138,16 @@ def command_jobs(tier, wd, seed):
                   {"c": "send", "s": 0, "text": "num-ended", "cls": "query", "call": {"kind": "get", "m": "num_ended"}},
                   {"c": "idle"}, {"c": "eof", "s": 0}]
         jobs.append({"kind": "command", "cls": cls, "line": "apply ctlfuncs.alias (rebound)", "script": script, "twin": True})
+    # the same container literal sent twice to a worker that empties what it is given: each command gets a container of its own
+    for cls in ("TaskPool",):
+        mk = lambda g: {"kind": "call", "m": "map", "args": [{"$path": "ctlfuncs.mutate"}, {"$lit": "[[1,2],[3]]"}], "kwargs": {"group_name": g}}      # noqa: E731
+        script = [{"c": "connect", "s": 0, "width": 80}, {"c": "idle"},
+                  {"c": "send", "s": 0, "text": "map ctlfuncs.mutate [[1,2],[3]] --group-name m1", "cls": "cmd", "call": mk("m1")}, {"c": "idle"},
+                  {"c": "send", "s": 0, "text": "map ctlfuncs.mutate [[1,2],[3]] --group-name m2", "cls": "cmd", "call": mk("m2")}, {"c": "idle"},
+                  {"c": "release_all"}, {"c": "idle"},
+                  {"c": "send", "s": 0, "text": "num-ended", "cls": "query", "call": {"kind": "get", "m": "num_ended"}},
+                  {"c": "idle"}, {"c": "eof", "s": 0}]
+        jobs.append({"kind": "command", "cls": cls, "line": "map ctlfuncs.mutate (same literal twice)", "script": script, "twin": True})
     # a dotted path into a submodule that the package itself does not import (the resolver has to import it on the way)
     for cls in ("TaskPool", "SubPool"):
         call = {"kind": "call", "m": "apply", "args": [{"$path": "ctlpkg.sub.quick2"}], "kwargs": {"num": 2}}
@@ -157,16 +167,16 @@ CONCRETE = {
                             ("apply ctlfuncs.work --num 2", {"kind": "call", "m": "apply", "args": [{"$path": "ctlfuncs.work"}], "kwargs": {"num": 2}})],
                  "await": [("flush", {"kind": "call", "m": "flush"}), ("gather-and-close", {"kind": "call", "m": "gather_and_close"})],
                  "help": [("apply -h", None), ("-h", None), ("map --help", None)],
-                 "unknown": [("frobnicate", None), ("apply-now 3", None), ("0", None), ("exit", None), ("quit", None)],
+                 "unknown": [("frobnicate", None), ("apply-now 3", None), ("0", None), ("exit", None), ("quit", None), ("#", None), ("# lock", None)],
                  "badarg": [("apply", None), ("cancel-group", None), ("lock now", None), ("map ctlfuncs.work", None)],
-                 "convfail": [("cancel abc", None), ("apply no.such.module", None), ("map ctlfuncs.work [1,", None),
+                 "convfail": [("cancel abc", None), ("apply no.such.module", None), ("map ctlfuncs.work [1,", None), ("map ctlfuncs.work range(3)", None), ("apply ctlfuncs.work -a os.sep", None),
                               ("pool-size x", None)]},
     "SimpleTaskPool": {"query": [("num-running", {"kind": "get", "m": "num_running"}), ("func-name", {"kind": "get", "m": "func_name"})],
                        "mutate": [("start 2", {"kind": "call", "m": "start", "args": [2]}), ("lock", {"kind": "call", "m": "lock"}),
                                   ("stop 1", {"kind": "call", "m": "stop", "args": [1]}), ("unlock", {"kind": "call", "m": "unlock"})],
                        "await": [("flush", {"kind": "call", "m": "flush"}), ("gather-and-close", {"kind": "call", "m": "gather_and_close"})],
                        "help": [("start -h", None), ("--help", None), ("stop --help", None)],
-                       "unknown": [("frobnicate", None), ("start-now", None), ("apply ctlfuncs.work", None), ("exit", None), ("help", None)],
+                       "unknown": [("frobnicate", None), ("start-now", None), ("apply ctlfuncs.work", None), ("exit", None), ("help", None), ("#1", None), ("# start 1", None)],
                        "badarg": [("start", None), ("stop", None), ("lock 1", None)],
                        "convfail": [("start abc", None), ("stop 1.5", None), ("pool-size x", None)]},
 }
